@@ -110,7 +110,10 @@ def dds_hash(x: Any) -> PyHash:
         if isinstance(elt, float):
             return _algo_bytes(struct.pack("!d", elt))
         if isinstance(elt, int):
-            return _algo_bytes(struct.pack("!l", elt))
+            if -(2 ** 31) <= elt < 2 ** 31:
+                return _algo_bytes(struct.pack("!l", elt))
+            # Integers that do not fit in 32 bits: hashed through their (signed) hexadecimal text.
+            return _algo_str("__DDS_INT__" + format(int(elt), "+x"))
         if isinstance(elt, CanonicalPath):
             return _algo_str(repr(elt))
         if isinstance(elt, list):
